@@ -411,7 +411,9 @@ where
         let mut acc = Vec::new();
         let parsers = inner_parser.unwrap_or_default();
         for parser in parsers {
-            let parser_start = parser.to_range().shift(parser.offset).start;
+            // `TokenChange` works with absolute positions in the old token vector
+            let parser_start =
+                parser.to_range().shift(parser.offset).start + input.get_old_reference();
             let (i, _) = match handle_insertions(input.clone(), parser_start, &mut acc) {
                 Ok(result) => result,
                 Err(nom::Err::Error(err)) => return Ok((err.input, acc)),
